@@ -200,7 +200,7 @@ func Replay(w *World, o *Outcome, replayJSON string) *ReplayResult {
 		return &ReplayResult{Reason: "function has no package"}
 	}
 	pkg := fn.Pkg.Pkg
-	b := &litBuilder{o: o, pkg: pkg, imports: map[string]string{"fmt": "fmt", "testing": "testing"}}
+	b := &litBuilder{o: o, pkg: pkg, imports: map[string]string{"fmt": "fmt", "testing": "testing", "reflect": "reflect"}}
 	var decl []string
 	var argNames []string
 	for i, p := range o.Entry.Params {
@@ -297,7 +297,8 @@ func Replay(w *World, o *Outcome, replayJSON string) *ReplayResult {
 	for _, p := range imps {
 		fmt.Fprintf(&sb, "\t%q\n", p)
 	}
-	fmt.Fprintf(&sb, ")\n\n// obligation: %s\nfunc TestVerifReplay(t *testing.T) {\n", o.Name)
+	sb.WriteString(")\n\n" + replayHelpers)
+	fmt.Fprintf(&sb, "// obligation: %s\nfunc TestVerifReplay(t *testing.T) {\n", o.Name)
 	sb.WriteString(body)
 	base := strings.TrimSuffix(replayJSON, ".json")
 	testFile := base + "_test.go"
@@ -316,7 +317,7 @@ func Replay(w *World, o *Outcome, replayJSON string) *ReplayResult {
 	if isHang {
 		testTO = "10s"
 	}
-	args := []string{"test", "-overlay", ovFile, "-vet=off", "-count=1", "-timeout", testTO, "-v", "-run", "^TestVerifReplay$", "./" + rel}
+	args := []string{"test", "-tags", "verif", "-overlay", ovFile, "-vet=off", "-count=1", "-timeout", testTO, "-v", "-run", "^TestVerifReplay$", "./" + rel}
 	cmd := exec.CommandContext(ctx, "bash", "-c", "ulimit -v 8000000; exec go "+strings.Join(quoteAll(args), " "))
 	cmd.Dir = RepoDir
 	cmd.Env = append(os.Environ(), "GOFLAGS=-mod=mod", "GOPROXY=off", "GOSUMDB=off", "GOTOOLCHAIN=local")
@@ -353,6 +354,27 @@ func Replay(w *World, o *Outcome, replayJSON string) *ReplayResult {
 	}
 	return rr
 }
+
+// helpers available to the executable form of a contract clause
+const replayHelpers = `func verifIte[T any](c bool, a, b T) T {
+	if c {
+		return a
+	}
+	return b
+}
+
+func verifEq(a, b interface{}) bool {
+	va, vb := reflect.ValueOf(a), reflect.ValueOf(b)
+	if va.Kind() == reflect.Slice && vb.Kind() == reflect.Slice && va.Len() == 0 && vb.Len() == 0 {
+		return true
+	}
+	return reflect.DeepEqual(a, b)
+}
+
+var _ = verifEq
+var _ = verifIte[int]
+
+`
 
 func sanitize(s string) string {
 	var b strings.Builder
